@@ -133,3 +133,12 @@ info('C10',
       'covered only through C19 (pairs) and C11/C13 models, not in this harness', 'predefined models over their parameter space: '
       'not enumerated'],
      [])
+info('C12',
+     'P: fermionic sign algebra obligations shared with C10 (contracts/c_terms.py). '
+     'B (bounded; the site part is a complete enumeration of the stated finite domain): every predefined site class over S <= 3, '
+     'Nmax <= 4, q <= 5, fillings and every conserve option: operators equal up to perm across options, spin / fermion / boson / clock '
+     'algebra, declared h.c. pairs, operator charges consistent with the connected states, product names; grouped sites of 2-3 '
+     'heterogeneous sites with each charge policy; canonical anticommutation relations for all pairs of fermionic operators on chains '
+     '<= 5 through term -> MPO and correlation functions, sampled quadruples through expectation_value_term.',
+     ['grouped-site combinations and quadruples are sampled, not exhaustive'],
+     [])
